@@ -161,3 +161,14 @@ pub open spec fn agrees(r: Result<HctlTreeNode, String>, s: Option<STree>, bound
         Err(_) => s is None,
     }
 }
+pub proof fn lemma_tok_size_push(v: Seq<HctlToken>, t: HctlToken)
+    ensures tok_size(v.push(t)) == tok_size(v) + tok_size1(t)
+{
+    let w = v.push(t);
+    lemma_tok_size_split(w, v.len() as int);
+    assert(w.subrange(0, v.len() as int) =~= v);
+    let last = w.subrange(v.len() as int, w.len() as int);
+    assert(last.len() == 1 && last[0] == t);
+    assert(last.subrange(1, last.len() as int).len() == 0);
+    reveal_with_fuel(tok_size, 3);
+}
